@@ -11,6 +11,7 @@ import (
 	"gonum.org/v1/gonum/blas"
 	"gonum.org/v1/gonum/blas/blas64"
 	"gonum.org/v1/gonum/blas/cblas128"
+	"gonum.org/v1/gonum/internal/verifhook"
 )
 
 // poolFor returns the ceiling of base 2 log of size. It provides an index
@@ -100,6 +101,7 @@ func init() {
 func getDenseWorkspace(r, c int, clear bool) *Dense {
 	l := uint(r * c)
 	w := poolDense[poolFor(l)].Get().(*Dense)
+	verifhook.Emit("pool", "get", 1, verifhook.Ptr(w), 0)
 	w.mat.Data = w.mat.Data[:l]
 	if clear {
 		zero(w.mat.Data)
@@ -116,6 +118,7 @@ func getDenseWorkspace(r, c int, clear bool) *Dense {
 // workspace pool. putDenseWorkspace must not be called with a matrix
 // where references to the underlying data slice have been kept.
 func putDenseWorkspace(w *Dense) {
+	verifhook.Emit("pool", "put", 1, verifhook.Ptr(w), 0)
 	poolDense[poolFor(uint(cap(w.mat.Data)))].Put(w)
 }
 
@@ -126,6 +129,7 @@ func getSymDenseWorkspace(n int, clear bool) *SymDense {
 	l := uint(n)
 	l *= l
 	s := poolSymDense[poolFor(l)].Get().(*SymDense)
+	verifhook.Emit("pool", "get", 2, verifhook.Ptr(s), 0)
 	s.mat.Data = s.mat.Data[:l]
 	if clear {
 		zero(s.mat.Data)
@@ -140,6 +144,7 @@ func getSymDenseWorkspace(n int, clear bool) *SymDense {
 // workspace pool. putSymDenseWorkspace must not be called with a matrix
 // where references to the underlying data slice have been kept.
 func putSymDenseWorkspace(s *SymDense) {
+	verifhook.Emit("pool", "put", 2, verifhook.Ptr(s), 0)
 	poolSymDense[poolFor(uint(cap(s.mat.Data)))].Put(s)
 }
 
@@ -150,6 +155,7 @@ func getTriDenseWorkspace(n int, kind TriKind, clear bool) *TriDense {
 	l := uint(n)
 	l *= l
 	t := poolTriDense[poolFor(l)].Get().(*TriDense)
+	verifhook.Emit("pool", "get", 3, verifhook.Ptr(t), 0)
 	t.mat.Data = t.mat.Data[:l]
 	if clear {
 		zero(t.mat.Data)
@@ -172,6 +178,7 @@ func getTriDenseWorkspace(n int, kind TriKind, clear bool) *TriDense {
 // workspace pool. putTriWorkspace must not be called with a matrix
 // where references to the underlying data slice have been kept.
 func putTriWorkspace(t *TriDense) {
+	verifhook.Emit("pool", "put", 3, verifhook.Ptr(t), 0)
 	poolTriDense[poolFor(uint(cap(t.mat.Data)))].Put(t)
 }
 
@@ -181,6 +188,7 @@ func putTriWorkspace(t *TriDense) {
 func getVecDenseWorkspace(n int, clear bool) *VecDense {
 	l := uint(n)
 	v := poolVecDense[poolFor(l)].Get().(*VecDense)
+	verifhook.Emit("pool", "get", 4, verifhook.Ptr(v), 0)
 	v.mat.Data = v.mat.Data[:l]
 	if clear {
 		zero(v.mat.Data)
@@ -193,6 +201,7 @@ func getVecDenseWorkspace(n int, clear bool) *VecDense {
 // workspace pool. putVecDenseWorkspace must not be called with a matrix
 // where references to the underlying data slice have been kept.
 func putVecDenseWorkspace(v *VecDense) {
+	verifhook.Emit("pool", "put", 4, verifhook.Ptr(v), 0)
 	poolVecDense[poolFor(uint(cap(v.mat.Data)))].Put(v)
 }
 
@@ -202,6 +211,7 @@ func putVecDenseWorkspace(v *VecDense) {
 func getCDenseWorkspace(r, c int, clear bool) *CDense {
 	l := uint(r * c)
 	w := poolCDense[poolFor(l)].Get().(*CDense)
+	verifhook.Emit("pool", "get", 5, verifhook.Ptr(w), 0)
 	w.mat.Data = w.mat.Data[:l]
 	if clear {
 		zeroC(w.mat.Data)
@@ -218,6 +228,7 @@ func getCDenseWorkspace(r, c int, clear bool) *CDense {
 // workspace pool. putWorkspace must not be called with a matrix
 // where references to the underlying data slice have been kept.
 func putCDenseWorkspace(w *CDense) {
+	verifhook.Emit("pool", "put", 5, verifhook.Ptr(w), 0)
 	poolCDense[poolFor(uint(cap(w.mat.Data)))].Put(w)
 }
 
@@ -226,6 +237,7 @@ func putCDenseWorkspace(w *CDense) {
 func getFloat64s(l int, clear bool) []float64 {
 	w := *poolFloat64s[poolFor(uint(l))].Get().(*[]float64)
 	w = w[:l]
+	verifhook.Emit("pool", "get", 6, verifhook.Ptr(w), 0)
 	if clear {
 		zero(w)
 	}
@@ -236,6 +248,7 @@ func getFloat64s(l int, clear bool) []float64 {
 // workspace pool. putFloat64s must not be called with a slice
 // where references to the underlying data have been kept.
 func putFloat64s(w []float64) {
+	verifhook.Emit("pool", "put", 6, verifhook.Ptr(w), 0)
 	poolFloat64s[poolFor(uint(cap(w)))].Put(&w)
 }
 
